@@ -174,6 +174,9 @@ func (u *fakeUp) holdName(name string) chan struct{} {
 
 // handle returns the wire reply (nil = none) and whether the connection should be failed.
 func (u *fakeUp) handle(w []byte, proto string) (reply []byte, fail bool) {
+	if own != nil && vtrace.PoisonRun(w, 6) {
+		own.T.Emit("own.poison", "where", "upstream query on "+proto)
+	}
 	q := new(dns.Msg)
 	if err := q.Unpack(w); err != nil {
 		u.tr().Emit("up.recv.bad", "up", u.tag, "proto", proto, "wire", vtrace.Bytes(w))
